@@ -378,6 +378,8 @@ fn variants_of(sc: &DiskScenario) -> Vec<(&'static str, Vec<u8>)> {
                     "long_line" => "long_line",
                     "layout" => "layout",
                     "tiny" => "tiny",
+                    "long_prefix" => "long_prefix",
+                    "many_lines" => "many_lines",
                     _ => "original",
                 };
                 out.push((kind, crate::sval::unhex(h)));
@@ -441,6 +443,25 @@ fn variants_of(sc: &DiskScenario) -> Vec<(&'static str, Vec<u8>)> {
                             n -= 1;
                         }
                         out.push(("layout", l.as_bytes()[..n].to_vec()));
+                    }
+                }
+            }
+            // size classes: the whole source pushed beyond column 65 535 of its first line, and
+            // beyond line 65 535 — whole and cut at a few seeded offsets, so that the errors to
+            // report sit at such positions
+            if src.len() <= 400 {
+                for (kind, prefix) in [("long_prefix", vec![b'x'; 66_000]), ("many_lines", vec![b'\n'; 66_000])] {
+                    let mut whole = prefix.clone();
+                    whole.extend_from_slice(src);
+                    out.push((kind, whole));
+                    for _ in 0..2 {
+                        let mut n = rng.below(src.len().max(1));
+                        while !std::str::from_utf8(&src[..n]).is_ok() && n > 0 {
+                            n -= 1;
+                        }
+                        let mut cut = prefix.clone();
+                        cut.extend_from_slice(&src[..n]);
+                        out.push((kind, cut));
                     }
                 }
             }
